@@ -111,6 +111,78 @@ Section Tamper.
      + (if (mi_plen mi =? 0)%N then 0 else N.to_nat (mi_plen mi) + tagLen) + N.to_nat (mi_suf mi))%nat.
 End Tamper.
 
+
+(* ---------------------------------------------------------------- the session above the receivers *)
+(* Session.input: the per-role list of protocol types a session accepts; anything else is an input error that
+   closes the session (runInputLoop) *)
+Definition accepts (client : bool) (p : N) : bool :=
+  if client
+  then (p =? pOpenResp) || (p =? pDataS2C) || (p =? pDataS2CLE) || (p =? pAckS2C) || (p =? pCloseReq) || (p =? pCloseResp)
+  else (p =? pOpenReq) || (p =? pDataC2S) || (p =? pDataC2SLE) || (p =? pAckC2S) || (p =? pCloseReq) || (p =? pCloseResp).
+
+(* the types that only the side with role [client] itself seals (open, data, ack of its own direction); both
+   directions of a session share one key and one session id, so these boxes OPEN at their own sender *)
+Definition own_side (client : bool) (p : N) : bool :=
+  if client
+  then (p =? pOpenReq) || (p =? pDataC2S) || (p =? pDataC2SLE) || (p =? pAckC2S)
+  else (p =? pOpenResp) || (p =? pDataS2C) || (p =? pDataS2CLE) || (p =? pAckS2C).
+
+Definition is_close (p : N) : bool := (p =? pCloseReq) || (p =? pCloseResp).
+
+(* what the receivers' output [l] (any transport) makes the session (role, id) queue for its application:
+   segments of other sessions are not seen; a refused type ends the session; so does a close *)
+Fixpoint session_in (client : bool) (sid : N) (l : list rseg) : list rseg :=
+  match l with
+  | [] => []
+  | r :: t =>
+    if mi_sid (fst r) =? sid then
+      if accepts client (mi_proto (fst r)) then
+        if is_close (mi_proto (fst r)) then []
+        else if is_queued (mi_proto (fst r)) then r :: session_in client sid t
+        else session_in client sid t
+      else []
+    else session_in client sid t
+  end.
+
+(* ---------------------------------------------------------------- UDP: release to the application *)
+(* inputData / moveRecvBufToRecvQueue / inputClose of a packet session.  Sequence numbers are list indexes here.
+   recvBuf is keyed by seq (ReplaceOrInsert); segments below nextRecv are ignored; only seq = nextRecv is
+   released; a close request / response releases nothing and ends the session. *)
+Record ust : Set := mkU { u_next : nat; u_buf : list (nat * list N); u_q : list (list N); u_closed : bool }.
+Definition u_init : ust := mkU 0 [] [] false.
+
+Fixpoint buf_lookup (q : nat) (b : list (nat * list N)) : option (list N) :=
+  match b with [] => None | (k, p) :: t => if (k =? q)%nat then Some p else buf_lookup q t end.
+Fixpoint buf_remove (q : nat) (b : list (nat * list N)) : list (nat * list N) :=
+  match b with [] => [] | (k, p) :: t => if (k =? q)%nat then buf_remove q t else (k, p) :: buf_remove q t end.
+
+Fixpoint u_release (fuel : nat) (next : nat) (b : list (nat * list N)) : nat * list (nat * list N) * list (list N) :=
+  match fuel with
+  | O => (next, b, [])
+  | S f => match buf_lookup next b with
+           | None => (next, b, [])
+           | Some p => let '(n', b', r) := u_release f (S next) (buf_remove next b) in (n', b', p :: r)
+           end
+  end.
+
+Inductive uevent : Set :=
+| UArrive (q : nat) (p : list N)    (* an authenticated sequenced segment was handed to the session *)
+| UClose.                           (* an authenticated close request / response was handed to the session *)
+
+Definition u_step (st : ust) (e : uevent) : ust :=
+  if u_closed st then st else
+  match e with
+  | UClose => mkU (u_next st) (u_buf st) (u_q st) true
+  | UArrive q p =>
+    if (q <? u_next st)%nat then st
+    else
+      let b := (q, p) :: buf_remove q (u_buf st) in
+      let '(n', b', r) := u_release (S (length b)) (u_next st) b in
+      mkU n' b' (u_q st ++ r) false
+  end.
+
+Definition u_run (evs : list uevent) : ust := fold_left u_step evs u_init.
+
 (* ---------------------------------------------------------------- ideal AEAD as a table *)
 (* entries (nonce, ciphertext, plaintext): exactly the boxes the key holders sealed *)
 Definition boxtab : Set := list (list N * list N * list N).
